@@ -103,6 +103,23 @@ theorem c01_fails_coalesce :
       | _ => false) = true := by
   constructor <;> decide +kernel
 
+/-- `cached(coalesce(Option('K', 'auto', domain=['fast', 'exact']), Option('K2')))` -/
+def f31Cached : Expr :=
+  .cached 7 (.coalesce 6 [ .option 3 "K" (some (.value 1 (.str "auto"))) (some (.value 2 (.list [.str "fast", .str "exact"]))),
+                .option 5 "K2" Option.none Option.none ]) 0
+
+/-- **known finding F31.** `{K2:'fast'}` then `{K2:'exact'}`: the first member validates (a default is not checked
+    against the domain) and reports no keys, evaluation rejects the default and reads `K2`: the cached graph returns
+    `'fast'` twice, the uncached one `'fast'` then `'exact'`. -/
+theorem c01_fails_default_outside_domain_F31 :
+    (match history (c01Env false) f31Cached [.dict [("K2", .str "fast")], .dict [("K2", .str "exact")]] {} with
+      | [a, b] => isOk a (.str "fast") && isOk b (.str "fast")
+      | _ => false) = true ∧
+    (match history (c01Env true) f31Cached [.dict [("K2", .str "fast")], .dict [("K2", .str "exact")]] {} with
+      | [a, b] => isOk a (.str "fast") && isOk b (.str "exact")
+      | _ => false) = true := by
+  constructor <;> decide +kernel
+
 /-- `cached(switch(Option('M','x') >> mayfail, {'k': 1}, 2))` -/
 def f19Cached : Expr :=
   .cached 8 (.switch 5 (.apply 3 (.option 1 "M" (some (.value 2 (.str "x"))) Option.none) (.value 4 (.fn "mayfail" [] [])))
